@@ -180,6 +180,47 @@ func runConc(c *Ctx) {
 		c.Nontrivial("two-writers-witness")
 		c.End()
 	}
+	// ---- contended membership: G goroutines released together insert the same fresh id; exactly one succeeds
+	if c.Args["mode"] != "single" {
+		c.Begin("contended same-id inserts")
+		sp, _ := newSpace(0)
+		h := index.NewHnsw(2, sp)
+		h.Insert(rid(0), amath.Vector{0, 0}, nil, 0)
+		nRounds := c.Pick(1500, 12000)
+		const G = 8
+		for i := 1; i <= nRounds; i++ {
+			var okCount int32
+			var ready, wg sync.WaitGroup
+			start := make(chan struct{})
+			ready.Add(G)
+			wg.Add(G)
+			for g := 0; g < G; g++ {
+				go func() {
+					defer wg.Done()
+					ready.Done()
+					<-start
+					if h.Insert(rid(1+i%500), amath.Vector{1, 1}, nil, 0) == nil {
+						atomic.AddInt32(&okCount, 1)
+					}
+				}()
+			}
+			ready.Wait()
+			before := h.Len()
+			close(start)
+			wg.Wait()
+			if okCount != 1 || h.Len() != before+1 {
+				c.Violate("C13", "C13/not-linearizable", fmt.Sprintf("%d goroutines inserted the same absent id concurrently: %d calls succeeded and Len grew by %d (a set admits exactly one)", G, okCount, h.Len()-before), c.History())
+				break
+			}
+			if h.Remove(rid(1+i%500)) != nil {
+				c.Violate("C13", "C13/not-linearizable", "remove of the id just inserted failed", c.History())
+				break
+			}
+		}
+		c.OpLocal("%d rounds x %d goroutines inserting one fresh id at a barrier", nRounds, G)
+		c.Nontrivial("contended-inserts")
+		c.End()
+	}
 	for round := 0; round < rounds; round++ {
 		r := rng.Fork()
 		nG := 2 + r.Intn(15)
